@@ -137,11 +137,15 @@ def make_signal(rng, t):
 
 
 def exact_poly_increment(coef, t, i):
-    """integral over [t[i-1], t[i]] of sum c_k tau^k, tau=(t-t0)/T"""
+    """integral over [t[i-1], t[i]] of sum c_k tau^k, tau=(t-t0)/T.  b^(k+1)-a^(k+1) cancels badly for long signals
+    (a, b differ by 1/nt), so the difference is taken in exact rational arithmetic."""
     T = max(t[-1] - t[0], 1e-9)
-    a = (t[i - 1] - t[0]) / T
-    b = (t[i] - t[0]) / T
-    return T * sum(c * (b ** (k + 1) - a ** (k + 1)) / (k + 1) for k, c in enumerate(coef))
+    a = Fraction(float((t[i - 1] - t[0]) / T))
+    b = Fraction(float((t[i] - t[0]) / T))
+    tot = Fraction(0)
+    for k, c in enumerate(coef):
+        tot += Fraction(float(c)) * (b ** (k + 1) - a ** (k + 1)) / (k + 1)
+    return T * float(tot)
 
 
 def judge_signal(ctx, c):
@@ -181,6 +185,10 @@ def judge_signal(ctx, c):
     # disturbance positions (step indices ii=1..nt-1; dt index ii-1)
     rel = np.abs(np.diff(dt)) / dt[1:] if nt > 2 else np.array([])
     disturbed_steps = set(int(i) + 2 for i in np.where(rel > 0.0099)[0])  # step ii where dt[ii-1] vs dt[ii-2] differ
+    # irregularities below the 1 % threshold may legitimately be ignored by the implementation (the high-order stencil
+    # is then applied to a slightly non-uniform stretch: neither exact nor trapezoid) - steps near them are not judged
+    small_steps = [int(i) + 2 for i in np.where((rel > 1e-9) & (rel <= 0.011))[0]]
+    coef_mag = float(np.sum(np.abs(c["coef"]))) if c.get("coef") is not None else 0.0
     coef = c.get("coef")
     poly_deg = None if coef is None else len(coef) - 1
     for ii in range(1, nt):
@@ -198,7 +206,12 @@ def judge_signal(ctx, c):
             far = all(abs(ii - dsp) > 2 * order + n for dsp in disturbed_steps)
             if far and ii > 2 * order + n and ii + n - 1 + 2 * order < nt and c["gkind"] != "jitter-small":
                 must_sten = True
+        if small_steps and any(abs(ii - q) <= 2 * order + n for q in small_steps) and not must_trap:
+            ctx.count("C20.steps_not_judged(sub-threshold irregularity nearby)")
+            continue
+        # local scale + rounding of the sampled polynomial itself (absolute, matters near its zero crossings)
         tscale = abs(trap[ii - 1]) + np.max(np.abs(x[max(0, ii - order):ii + order])) * dt[ii - 1] + 1e-300
+        tscale += 1e-3 * coef_mag * dt[ii - 1]
         if must_trap:
             ctx.count("C20.steps_must_trapezoid")
             name = "C20.jitter:trapezoid-step" if not (ii - m < 0 or ii + n - 1 > nt - 1) else "C20.ends:trapezoid-step"
